@@ -3,10 +3,20 @@
 //	c05 gen <quick|thorough> <casefile>   generate cases (deterministic from VERIF_SEED), run the
 //	                                      implementation on each, write one line per case
 //	c05 one <kind> <a1> <a2> <a3> <a4> <a5>   run one case, print its result fields
+//	c05 seq <file>                        run the calls listed in <file> (kind a1..a5 per line) one after the
+//	                                      other in this process, REUSING the same key / iv / input / output /
+//	                                      message buffers and big.Int objects (values written in place between
+//	                                      calls); print the result fields of every step
 //
 // Line format (tab separated, bytes in hex, "-" = empty):
 //
-//	id kind a1 a2 a3 a4 a5 class r1 r2 direct detail
+//	id kind a1 a2 a3 a4 a5 class r1 r2 direct detail seq
+//
+// seq is "-" for a call made with freshly allocated arguments, or "s<k>.<i>" for step i of call sequence k:
+// the calls of one sequence share their argument buffers (same backing arrays, overwritten in place), so
+// state that the package might carry from one call to the next, or aliasing of a caller's buffer kept by
+// the package, shows up as a wrong result of a later step. Every step is still described by the VALUES its
+// arguments hold when the call is made; model and direct oracle are evaluated on those values.
 //
 // class/r1/r2 is what the implementation did (class = ok | err | panic). "direct" is the verdict of
 // the property's direct oracle on the implementation for this input, computed with an independent
@@ -112,7 +122,42 @@ func (r res) fields() []string {
 	return []string{r.class, vc.Hex(r.r1), r2}
 }
 
-func big_(raw []byte) *big.Int { return new(big.Int).SetBytes(raw) }
+// session = the argument buffers of one call sequence. nil means: allocate fresh arguments for every call.
+type session struct {
+	bufs map[string][]byte
+	ints map[string]*big.Int
+}
+
+func newSession() *session { return &session{bufs: map[string][]byte{}, ints: map[string]*big.Int{}} }
+
+// buf returns a slice with len = cap = len(val) holding val. In a session the slice for a given role and
+// length is always the same backing array, overwritten in place.
+func (s *session) buf(role string, val []byte) []byte {
+	if s == nil {
+		return append(make([]byte, 0, len(val)), val...)
+	}
+	k := role + "/" + strconv.Itoa(len(val))
+	b, ok := s.bufs[k]
+	if !ok {
+		b = make([]byte, len(val))
+		s.bufs[k] = b
+	}
+	copy(b, val)
+	return b
+}
+
+// num returns a big.Int with the value of raw; in a session the same object is re-set in place.
+func (s *session) num(role string, raw []byte) *big.Int {
+	if s == nil {
+		return new(big.Int).SetBytes(raw)
+	}
+	n, ok := s.ints[role]
+	if !ok {
+		n = new(big.Int)
+		s.ints[role] = n
+	}
+	return n.SetBytes(raw)
+}
 
 func classify(f func() ([]byte, []byte, error)) res {
 	var r res
@@ -129,16 +174,16 @@ func classify(f func() ([]byte, []byte, error)) res {
 }
 
 // runCase runs the implementation; returns result, direct verdict, detail
-func runCase(kind string, a [5]string) (res, string, string) {
+func runCase(kind string, a [5]string, ss *session) (res, string, string) {
 	switch kind {
 	case "igeenc", "igedec":
 		key, iv, data := vc.UnHex(a[0]), vc.UnHex(a[1]), vc.UnHex(a[2])
 		outlen, _ := strconv.Atoi(a[3])
 		fb, _ := strconv.ParseUint(a[4], 16, 8)
-		out := bytes.Repeat([]byte{byte(fb)}, outlen)
-		in := append(make([]byte, 0, len(data)), data...)
-		keyc := append([]byte{}, key...)
-		ivc := append(make([]byte, 0, len(iv)), iv...)
+		out := ss.buf("out", bytes.Repeat([]byte{byte(fb)}, outlen))
+		in := ss.buf("in", data)
+		keyc := ss.buf("key", key)
+		ivc := ss.buf("iv", iv)
 		var err error
 		p, _ := vc.Catch(func() {
 			if kind == "igeenc" {
@@ -181,7 +226,7 @@ func runCase(kind string, a [5]string) (res, string, string) {
 	case "tk":
 		n1, n2 := vc.UnHex(a[0]), vc.UnHex(a[1])
 		r := classify(func() ([]byte, []byte, error) {
-			k, iv := ige.VerifGenerateTempKeys(big_(n1), big_(n2))
+			k, iv := ige.VerifGenerateTempKeys(ss.num("n1", n1), ss.num("n2", n2))
 			return k, iv, nil
 		})
 		if len(n1) == 32 && len(n2) == 16 {
@@ -195,7 +240,7 @@ func runCase(kind string, a [5]string) (res, string, string) {
 	case "encraw":
 		n1, n2, msg := vc.UnHex(a[0]), vc.UnHex(a[1]), vc.UnHex(a[2])
 		r := classify(func() ([]byte, []byte, error) {
-			return ige.VerifEncryptMessageWithTempKeysRaw(append([]byte{}, msg...), big_(n1), big_(n2)), nil, nil
+			return ige.VerifEncryptMessageWithTempKeysRaw(ss.buf("msg", msg), ss.num("n1", n1), ss.num("n2", n2)), nil, nil
 		})
 		if len(n1) == 32 && len(n2) == 16 && len(msg) > 0 && len(msg)%16 == 0 {
 			k, iv := refTempKeys(n1, n2)
@@ -209,7 +254,7 @@ func runCase(kind string, a [5]string) (res, string, string) {
 	case "enc":
 		n1, n2, payload := vc.UnHex(a[0]), vc.UnHex(a[1]), vc.UnHex(a[2])
 		r := classify(func() ([]byte, []byte, error) {
-			return ige.EncryptMessageWithTempKeys(append([]byte{}, payload...), big_(n1), big_(n2)), nil, nil
+			return ige.EncryptMessageWithTempKeys(ss.buf("msg", payload), ss.num("n1", n1), ss.num("n2", n2)), nil, nil
 		})
 		r.r2q = true
 		if len(n1) != 32 || len(n2) != 16 {
@@ -232,7 +277,7 @@ func runCase(kind string, a [5]string) (res, string, string) {
 		r.r2q = false
 		// the client reads back what it produced
 		var back []byte
-		p, _ := vc.Catch(func() { back = ige.DecryptMessageWithTempKeys(append([]byte{}, r.r1...), big_(n1), big_(n2)) })
+		p, _ := vc.Catch(func() { back = ige.DecryptMessageWithTempKeys(ss.buf("ct", r.r1), ss.num("n1", n1), ss.num("n2", n2)) })
 		if p {
 			return r, "fail", fmt.Sprintf("DecryptMessageWithTempKeys panics on the client's own EncryptMessageWithTempKeys output (%d padding bytes)", len(r.r2))
 		}
@@ -246,7 +291,7 @@ func runCase(kind string, a [5]string) (res, string, string) {
 	case "dec":
 		n1, n2, ct := vc.UnHex(a[0]), vc.UnHex(a[1]), vc.UnHex(a[2])
 		r := classify(func() ([]byte, []byte, error) {
-			return ige.DecryptMessageWithTempKeys(append([]byte{}, ct...), big_(n1), big_(n2)), nil, nil
+			return ige.DecryptMessageWithTempKeys(ss.buf("ct", ct), ss.num("n1", n1), ss.num("n2", n2)), nil, nil
 		})
 		if a[3] != "?" { // produced by the conformant peer from payload a[3]
 			payload := vc.UnHex(a[3])
@@ -259,14 +304,15 @@ func runCase(kind string, a [5]string) (res, string, string) {
 	case "aesige":
 		mk, ak := vc.UnHex(a[0]), vc.UnHex(a[1])
 		r := classify(func() ([]byte, []byte, error) {
-			k, iv := ige.VerifGenerateAESIGE(mk, ak, a[2] == "1")
+			k, iv := ige.VerifGenerateAESIGE(ss.buf("mkey", mk), ss.buf("akey", ak), a[2] == "1")
 			return k, iv, nil
 		})
 		return r, "none", ""
 	case "msgenc":
 		msg, key := vc.UnHex(a[0]), vc.UnHex(a[1])
 		r := classify(func() ([]byte, []byte, error) {
-			o, err := ige.Encrypt(append([]byte{}, msg...), key)
+			akey := ss.buf("akey", key)
+			o, err := ige.Encrypt(ss.buf("msg", msg), akey)
 			return o, nil, err
 		})
 		if len(key) >= 128 {
@@ -288,7 +334,8 @@ func runCase(kind string, a [5]string) (res, string, string) {
 	case "msgdec":
 		ct, key, cd := vc.UnHex(a[0]), vc.UnHex(a[1]), vc.UnHex(a[2])
 		r := classify(func() ([]byte, []byte, error) {
-			o, err := ige.Decrypt(append([]byte{}, ct...), key, cd)
+			akey := ss.buf("akey", key)
+			o, err := ige.Decrypt(ss.buf("ct", ct), akey, ss.buf("mkey", cd))
 			return o, nil, err
 		})
 		if len(key) >= 136 {
@@ -319,19 +366,38 @@ func runCase(kind string, a [5]string) (res, string, string) {
 // ---------------------------------------------------------------------------------------------
 
 type gen struct {
-	o     *vc.Out
-	n     int
-	stats map[string]int
-	order []string
+	o       *vc.Out
+	n       int
+	stats   map[string]int
+	order   []string
+	sess    *session
+	seqNo   int
+	seqStep int
 }
 
-func (g *gen) add(kind string, a ...string) {
+func (g *gen) add(kind string, a ...string) { g.addIn(nil, "-", kind, a...) }
+
+// step adds one call of the current sequence
+func (g *gen) step(kind string, a ...string) {
+	g.seqStep++
+	g.addIn(g.sess, fmt.Sprintf("s%d.%d", g.seqNo, g.seqStep), kind, a...)
+	g.stat("seq_calls")
+}
+
+func (g *gen) newSeq() {
+	g.seqNo++
+	g.seqStep = 0
+	g.sess = newSession()
+	g.stat("sequences")
+}
+
+func (g *gen) addIn(ss *session, tag string, kind string, a ...string) {
 	var f [5]string
 	for i := range f {
 		f[i] = "-"
 	}
 	copy(f[:], a)
-	r, direct, detail := runCase(kind, f)
+	r, direct, detail := runCase(kind, f, ss)
 	g.n++
 	line := []string{fmt.Sprintf("c%d", g.n), kind}
 	line = append(line, f[:]...)
@@ -339,7 +405,7 @@ func (g *gen) add(kind string, a ...string) {
 	if detail == "" {
 		detail = "-"
 	}
-	line = append(line, direct, strings.ReplaceAll(detail, "\t", " "))
+	line = append(line, direct, strings.ReplaceAll(detail, "\t", " "), tag)
 	g.o.Line(line...)
 	g.stat(kind)
 	g.stat("class_" + r.class)
@@ -370,12 +436,31 @@ func main() {
 	if len(os.Args) >= 8 && os.Args[1] == "one" {
 		var f [5]string
 		copy(f[:], os.Args[3:8])
-		r, direct, detail := runCase(os.Args[2], f)
+		r, direct, detail := runCase(os.Args[2], f, nil)
 		fmt.Println(strings.Join(append(r.fields(), direct, detail), "\t"))
 		return
 	}
+	if len(os.Args) == 3 && os.Args[1] == "seq" {
+		data, err := os.ReadFile(os.Args[2])
+		if err != nil {
+			fmt.Fprintln(os.Stderr, err)
+			os.Exit(3)
+		}
+		ss := newSession()
+		for _, l := range strings.Split(strings.TrimSpace(string(data)), "\n") {
+			fs := strings.Split(l, "\t")
+			if len(fs) < 6 {
+				continue
+			}
+			var f [5]string
+			copy(f[:], fs[1:6])
+			r, direct, detail := runCase(fs[0], f, ss)
+			fmt.Println(strings.Join(append(r.fields(), direct, detail), "\t"))
+		}
+		return
+	}
 	if len(os.Args) != 4 || os.Args[1] != "gen" {
-		fmt.Fprintln(os.Stderr, "usage: c05 gen <tier> <casefile> | c05 one <kind> a1..a5")
+		fmt.Fprintln(os.Stderr, "usage: c05 gen <tier> <casefile> | c05 one <kind> a1..a5 | c05 seq <file>")
 		os.Exit(3)
 	}
 	thorough := os.Args[2] == "thorough"
@@ -561,6 +646,132 @@ func main() {
 		g.add("msgenc", vc.Hex(r.Bytes(20)), vc.Hex(r.Bytes(100)))
 		g.add("msgdec", vc.Hex(r.Bytes(32)), vc.Hex(r.Bytes(130)), vc.Hex(r.Bytes(16)))
 		g.add("msgenc", "68656c6c6f20776f726c6421", vc.Hex(key))
+	}
+
+	// --- call sequences in ONE process reusing the same argument buffers, overwritten in place ---
+	{
+		r := rng.Fork(7)
+		H := vc.Hex
+		itoa := strconv.Itoa
+		ige2 := func(dec bool, key, iv, data []byte) {
+			kind := "igeenc"
+			if dec {
+				kind = "igedec"
+			}
+			g.step(kind, H(key), H(iv), H(data), itoa(len(data)), fb)
+		}
+		// s1: two keys alternating in the same key buffer (k1, k2, k1, ...), both directions
+		{
+			g.newSeq()
+			k1, k2, iv, d := r.Bytes(32), r.Bytes(32), r.Bytes(32), r.Bytes(48)
+			for i, k := range [][]byte{k1, k2, k1, k2, k2, k1, k1, k2} {
+				ige2(i >= 3 && i%2 == 1, k, iv, d)
+			}
+		}
+		// s2: two ivs alternating under one key
+		{
+			g.newSeq()
+			k, iv1, iv2, d := r.Bytes(32), r.Bytes(32), r.Bytes(32), r.Bytes(64)
+			for i, iv := range [][]byte{iv1, iv2, iv1, iv2, iv2, iv1} {
+				ige2(i%3 == 2, k, iv, d)
+			}
+		}
+		// s3: the same key twice, then one byte / one bit changed in place, then other key sizes and back
+		{
+			g.newSeq()
+			k, iv, d := r.Bytes(32), r.Bytes(32), r.Bytes(32)
+			ige2(false, k, iv, d)
+			ige2(false, k, iv, d)
+			k2 := append([]byte{}, k...)
+			k2[31] ^= 1
+			ige2(false, k2, iv, d)
+			k3 := append([]byte{}, k2...)
+			k3[0] ^= 0x80
+			ige2(true, k3, iv, d)
+			ige2(true, k, iv, d)
+			ige2(false, r.Bytes(16), iv, d)
+			ige2(false, r.Bytes(16), iv, d)
+			ige2(true, r.Bytes(24), iv, d)
+			ige2(false, k, iv, d)
+			ige2(false, r.Bytes(31), iv, d) // refused key size must not disturb the next call
+			ige2(false, k2, iv, d)
+		}
+		// s4: output of one call is the input of the next (encrypt, decrypt back, other key, ...), lengths varying
+		{
+			g.newSeq()
+			iv := r.Bytes(32)
+			for i := 0; i < 6; i++ {
+				k := r.Bytes(32)
+				d := r.Bytes(16 * (1 + r.Intn(5)))
+				ige2(false, k, iv, d)
+				ige2(true, k, iv, refIGE(k, iv, d, false))
+				ige2(false, k, iv, r.Bytes(7+i)) // refused length in between
+			}
+		}
+		// s5: temp-key wrappers and message-level functions interleaved with the loops; nonces re-set in the
+		// same big.Int objects, auth keys / messages overwritten in place
+		{
+			g.newSeq()
+			na, nb := nonce(r, 32, 0), nonce(r, 32, 1)
+			sa, sb := nonce(r, 16, 0), nonce(r, 16, 2)
+			ak1, ak2 := r.Bytes(256), r.Bytes(256)
+			k, iv := r.Bytes(32), r.Bytes(32)
+			type nn struct{ n, s []byte }
+			for i, p := range []nn{{na, sa}, {nb, sa}, {na, sb}, {nb, sb}, {na, sa}} {
+				g.step("tk", H(p.n), H(p.s))
+				payload := r.Bytes(12 + i*7)
+				g.step("enc", H(p.n), H(p.s), H(payload))
+				ige2(i%2 == 0, k, iv, r.Bytes(32))
+				pl := (16 - (20+len(payload))%16) % 16
+				g.step("dec", H(p.n), H(p.s), H(peerEncrypt(payload, r.Bytes(pl), p.n, p.s)), H(payload), itoa(pl))
+				g.step("encraw", H(p.n), H(p.s), H(r.Bytes(32)))
+				ak := ak1
+				if i%2 == 1 {
+					ak = ak2
+				}
+				g.step("msgenc", H(r.Bytes(20+i)), H(ak))
+				g.step("msgdec", H(r.Bytes(48)), H(ak), H(r.Bytes(16)))
+				g.step("aesige", H(r.Bytes(16)), H(ak), itoa(i%2))
+			}
+		}
+		// s6..: random mixes over a small pool of values, so that repeats and alternations occur
+		nseq, nsteps := 3, 40
+		if thorough {
+			nseq, nsteps = 12, 120
+		}
+		for q := 0; q < nseq; q++ {
+			g.newSeq()
+			keys := [][]byte{r.Bytes(32), r.Bytes(32), rep(0, 32), r.Bytes(16)}
+			ivs := [][]byte{r.Bytes(32), r.Bytes(32), rep(0xff, 32)}
+			ns := [][]byte{nonce(r, 32, 0), nonce(r, 32, 1), nonce(r, 32, 29)}
+			sv := [][]byte{nonce(r, 16, 0), nonce(r, 16, 1)}
+			aks := [][]byte{r.Bytes(256), r.Bytes(256)}
+			for i := 0; i < nsteps; i++ {
+				switch r.Intn(8) {
+				case 0, 1, 2:
+					ige2(false, keys[r.Intn(4)], ivs[r.Intn(3)], r.Bytes(16*(1+r.Intn(4))))
+				case 3, 4:
+					ige2(true, keys[r.Intn(4)], ivs[r.Intn(3)], r.Bytes(16*(1+r.Intn(4))))
+				case 5:
+					n, s := ns[r.Intn(3)], sv[r.Intn(2)]
+					payload := r.Bytes(r.Intn(40))
+					if r.Bool() {
+						g.step("enc", H(n), H(s), H(payload))
+					} else {
+						pl := (16 - (20+len(payload))%16) % 16
+						g.step("dec", H(n), H(s), H(peerEncrypt(payload, r.Bytes(pl), n, s)), H(payload), itoa(pl))
+					}
+				case 6:
+					g.step("tk", H(ns[r.Intn(3)]), H(sv[r.Intn(2)]))
+				default:
+					if r.Bool() {
+						g.step("msgenc", H(r.Bytes(1+r.Intn(50))), H(aks[r.Intn(2)]))
+					} else {
+						g.step("msgdec", H(r.Bytes(16*(1+r.Intn(3)))), H(aks[r.Intn(2)]), H(r.Bytes(16)))
+					}
+				}
+			}
+		}
 	}
 
 	g.o.Close()
